@@ -42,11 +42,36 @@ theorem share_spec (r : RingQP) (N x : ℕ) (sp : ShamirPoly) (hne : sp ≠ [])
     rw [he m k hm hk, List.map_map]
     rfl
 
+theorem foldr_bind_err {α β : Type} (f : α → Outcome β) (l : List α)
+    (hall : ∀ a ∈ l, (∃ s, f a = .ok s) ∨ f a = .err) (hex : ∃ a ∈ l, f a = .err) :
+    l.foldr (fun a acc => (f a).bind fun s => acc.bind fun l => .ok (s :: l)) (.ok []) = .err := by
+  induction l with
+  | nil => obtain ⟨a, ha, _⟩ := hex; simp at ha
+  | cons a rest ih =>
+    rw [List.foldr_cons]
+    rcases hall a List.mem_cons_self with ⟨s, hs⟩ | he
+    · have hex' : ∃ b ∈ rest, f b = .err := by
+        obtain ⟨b, hb, hbe⟩ := hex
+        rcases List.mem_cons.mp hb with h | h
+        · subst h; rw [hs] at hbe; exact absurd hbe (by simp)
+        · exact ⟨b, h, hbe⟩
+      rw [ih (fun b hb => hall b (List.mem_cons_of_mem _ hb)) hex', hs]
+      rfl
+    · rw [he]; rfl
+
+/-- the table of `newCombiner` has an entry for every point of `others` other than `own`. -/
+theorem newCombiner_lookup (r : RingQP) (own : ℕ) (others : List ℕ) (t : Int) (a : ℕ)
+    (ha : a ∈ others) (hne : a ≠ own) :
+    ∃ c, (newCombiner r own others t).table.lookup a = some c :=
+  ⟨_, lookup_table own (fun spk => r.ms.map fun q => lagrangeCoeff q own spk) others a ha hne⟩
+
 /-- `GenAdditiveShare` on a combiner made by `NewCombiner` with the same own point: succeeds when
 at least `t` active points are given and the first `t` of them (other than `own`) were known to
-`NewCombiner`; the share is scaled, per modulus, by the scalar product loop. -/
+`NewCombiner` and do not collide with `own` modulo any modulus; the share is scaled, per modulus,
+by the scalar product loop. -/
 theorem genAdditiveShare_ok (r : RingQP) (t : ℕ) (own : ℕ) (others acts : List ℕ) (share : QP)
-    (hlen : t ≤ acts.length) (hmem : ∀ a ∈ acts.take t, a ≠ own → a ∈ others) :
+    (hlen : t ≤ acts.length) (hmem : ∀ a ∈ acts.take t, a ≠ own → a ∈ others)
+    (hnc : ∀ a ∈ acts.take t, a ≠ own → pointsCollide r.ms own a = false) :
     genAdditiveShare (newCombiner r own others t) acts own share =
       .ok ⟨r.nq, scaleRows r.ms share.rows (r.ms.map fun q => lagProdScalar q own (acts.take t) (1 % q))⟩ := by
   unfold genAdditiveShare
@@ -58,17 +83,34 @@ theorem genAdditiveShare_ok (r : RingQP) (t : ℕ) (own : ℕ) (others acts : Li
   have h3 : (newCombiner r own others (t : Int)).threshold.toNat = t := by simp [newCombiner]
   have h4 : (newCombiner r own others (t : Int)).ring = r := rfl
   simp only [h3, h4]
-  rw [lagrangeProd_newCombiner r own others t (acts.take t) hmem (fun q => 1 % q)]
+  rw [lagrangeProd_newCombiner r own others t (acts.take t) hmem hnc (fun q => 1 % q)]
 
-/-- what one active party derives. -/
-theorem party_spec (r : RingQP) (N t : ℕ) (dealers : List ShamirPoly) (p : Party)
-    (hd : ∀ sp ∈ dealers, sp ≠ [] ∧ ∀ c ∈ sp, ShapedQP r N c)
-    (hlen : t ≤ p.actives.length) (hmem : ∀ a ∈ p.actives.take t, a ≠ p.own → a ∈ p.others) :
-    ∃ a, partyAdditiveShare r t (zeroQP r N) dealers p = .ok a ∧ ShapedQP r N a ∧
+/-- …and returns the error when one of them collides with `own` modulo some modulus. -/
+theorem genAdditiveShare_collide_err (r : RingQP) (t : ℕ) (own : ℕ) (others acts : List ℕ) (share : QP)
+    (hmem : ∀ a ∈ acts.take t, a ≠ own → a ∈ others)
+    (hc : ∃ a ∈ acts.take t, a ≠ own ∧ pointsCollide r.ms own a = true) :
+    genAdditiveShare (newCombiner r own others t) acts own share = .err := by
+  unfold genAdditiveShare
+  by_cases h1 : (acts.length : Int) < (newCombiner r own others t).threshold
+  · rw [if_pos h1]
+  · have h2 : ¬ ((newCombiner r own others t).threshold < 0) := by
+      simp only [newCombiner]; omega
+    rw [if_neg h1, if_neg h2]
+    have h3 : (newCombiner r own others (t : Int)).threshold.toNat = t := by simp [newCombiner]
+    have h4 : (newCombiner r own others (t : Int)).ring = r := rfl
+    simp only [h3, h4]
+    rw [lagrangeProd_collide_err r.ms _ own (acts.take t)
+      (fun a ha hne => newCombiner_lookup r own others t a (hmem a ha hne) hne) hc]
+
+/-- up to the call of `GenAdditiveShare`, a party's computation succeeds: it holds the aggregated
+share `tsks`, every word of which is the sum of the dealers' polynomials at its point. -/
+theorem party_prefix (r : RingQP) (N t : ℕ) (dealers : List ShamirPoly) (p : Party)
+    (hd : ∀ sp ∈ dealers, sp ≠ [] ∧ ∀ c ∈ sp, ShapedQP r N c) :
+    ∃ tsks, partyAdditiveShare r t (zeroQP r N) dealers p =
+        genAdditiveShare (newCombiner r p.own p.others t) p.actives p.own tsks ∧ ShapedQP r N tsks ∧
       ∀ m k, m < r.ms.length → k < N →
-        ent a.rows m k =
-          sumMod (modAt r.ms m) 0 (dealers.map fun sp => horner (modAt r.ms m) p.own (sp.map fun c => ent c.rows m k))
-            * lagProdScalar (modAt r.ms m) p.own (p.actives.take t) (1 % modAt r.ms m) % modAt r.ms m := by
+        ent tsks.rows m k =
+          sumMod (modAt r.ms m) 0 (dealers.map fun sp => horner (modAt r.ms m) p.own (sp.map fun c => ent c.rows m k)) := by
   let g : ShamirPoly → QP := fun sp => outGet (zeroQP r N) (genShamirSecretShare r p.own sp)
   have hg : ∀ sp ∈ dealers, genShamirSecretShare r p.own sp = .ok (g sp) ∧ ShapedQP r N (g sp) ∧
       ∀ m k, m < r.ms.length → k < N →
@@ -84,27 +126,82 @@ theorem party_spec (r : RingQP) (N t : ℕ) (dealers : List ShamirPoly) (p : Par
       rw [List.mem_map] at hs
       obtain ⟨sp, hsp, rfl⟩ := hs
       exact (hg sp hsp).2.1)
-  refine ⟨⟨r.nq, scaleRows r.ms tsks.rows
-      (r.ms.map fun q => lagProdScalar q p.own (p.actives.take t) (1 % q))⟩, ?_,
-    ⟨rfl, shaped_scaleRows r.ms tsks.rows _ rfl htsh.2⟩, ?_⟩
+  refine ⟨tsks, ?_, htsh, ?_⟩
   · unfold partyAdditiveShare
     rw [foldr_bind_ok (genShamirSecretShare r p.own) g dealers (fun sp hsp => (hg sp hsp).1)]
     simp only [Outcome.bind]
     rw [hts]
-    simp only
-    exact genAdditiveShare_ok r t p.own p.others p.actives tsks hlen hmem
   · intro m k hm hk
-    rw [ent_scaleRows r.ms tsks.rows _ rfl htsh.2 m k hm hk, hte m k hm hk, ent_zero r N m k hm hk,
-      List.map_map]
-    congr 3
+    rw [hte m k hm hk, ent_zero r N m k hm hk, List.map_map]
+    congr 1
     apply List.map_congr_left
     intro sp hsp
     exact (hg sp hsp).2.2 m k hm hk
 
+/-- what one active party derives. -/
+theorem party_spec (r : RingQP) (N t : ℕ) (dealers : List ShamirPoly) (p : Party)
+    (hd : ∀ sp ∈ dealers, sp ≠ [] ∧ ∀ c ∈ sp, ShapedQP r N c)
+    (hlen : t ≤ p.actives.length) (hmem : ∀ a ∈ p.actives.take t, a ≠ p.own → a ∈ p.others)
+    (hnc : ∀ a ∈ p.actives.take t, a ≠ p.own → pointsCollide r.ms p.own a = false) :
+    ∃ a, partyAdditiveShare r t (zeroQP r N) dealers p = .ok a ∧ ShapedQP r N a ∧
+      ∀ m k, m < r.ms.length → k < N →
+        ent a.rows m k =
+          sumMod (modAt r.ms m) 0 (dealers.map fun sp => horner (modAt r.ms m) p.own (sp.map fun c => ent c.rows m k))
+            * lagProdScalar (modAt r.ms m) p.own (p.actives.take t) (1 % modAt r.ms m) % modAt r.ms m := by
+  obtain ⟨tsks, hpre, htsh, hte⟩ := party_prefix r N t dealers p hd
+  refine ⟨⟨r.nq, scaleRows r.ms tsks.rows
+      (r.ms.map fun q => lagProdScalar q p.own (p.actives.take t) (1 % q))⟩, ?_,
+    ⟨rfl, shaped_scaleRows r.ms tsks.rows _ rfl htsh.2⟩, ?_⟩
+  · rw [hpre]
+    exact genAdditiveShare_ok r t p.own p.others p.actives tsks hlen hmem hnc
+  · intro m k hm hk
+    rw [ent_scaleRows r.ms tsks.rows _ rfl htsh.2 m k hm hk, hte m k hm hk]
+
+/-- a party one of whose first `t` active points collides with its own point gets the error. -/
+theorem party_collide_err (r : RingQP) (N t : ℕ) (dealers : List ShamirPoly) (p : Party)
+    (hd : ∀ sp ∈ dealers, sp ≠ [] ∧ ∀ c ∈ sp, ShapedQP r N c)
+    (hmem : ∀ a ∈ p.actives.take t, a ≠ p.own → a ∈ p.others)
+    (hc : ∃ a ∈ p.actives.take t, a ≠ p.own ∧ pointsCollide r.ms p.own a = true) :
+    partyAdditiveShare r t (zeroQP r N) dealers p = .err := by
+  obtain ⟨tsks, hpre, _, _⟩ := party_prefix r N t dealers p hd
+  rw [hpre]
+  exact genAdditiveShare_collide_err r t p.own p.others p.actives tsks hmem hc
+
+/-- without table misses a party's outcome is a share or the error, never a panic. -/
+theorem party_ok_or_err (r : RingQP) (N t : ℕ) (dealers : List ShamirPoly) (p : Party)
+    (hd : ∀ sp ∈ dealers, sp ≠ [] ∧ ∀ c ∈ sp, ShapedQP r N c)
+    (hlen : t ≤ p.actives.length) (hmem : ∀ a ∈ p.actives.take t, a ≠ p.own → a ∈ p.others) :
+    (∃ s, partyAdditiveShare r t (zeroQP r N) dealers p = .ok s) ∨
+      partyAdditiveShare r t (zeroQP r N) dealers p = .err := by
+  by_cases hc : ∃ a ∈ p.actives.take t, a ≠ p.own ∧ pointsCollide r.ms p.own a = true
+  · exact Or.inr (party_collide_err r N t dealers p hd hmem hc)
+  · left
+    have hnc : ∀ a ∈ p.actives.take t, a ≠ p.own → pointsCollide r.ms p.own a = false := by
+      intro a ha hne
+      by_contra h
+      exact hc ⟨a, ha, hne, by simpa using h⟩
+    obtain ⟨s, hs, _⟩ := party_spec r N t dealers p hd hlen hmem hnc
+    exact ⟨s, hs⟩
+
+/-- if some party gets the error (and none panics) the run returns the error. -/
+theorem run_err (r : RingQP) (N t : ℕ) (dealers : List ShamirPoly) (parties : List Party)
+    (hd : ∀ sp ∈ dealers, sp ≠ [] ∧ ∀ c ∈ sp, ShapedQP r N c)
+    (hp : ∀ p ∈ parties, t ≤ p.actives.length ∧ ∀ a ∈ p.actives.take t, a ≠ p.own → a ∈ p.others)
+    (hc : ∃ p ∈ parties, ∃ a ∈ p.actives.take t, a ≠ p.own ∧ pointsCollide r.ms p.own a = true) :
+    thresholdRun r t (zeroQP r N) dealers parties = .err := by
+  unfold thresholdRun
+  rw [foldr_bind_err (partyAdditiveShare r t (zeroQP r N) dealers) parties
+    (fun p hpp => party_ok_or_err r N t dealers p hd (hp p hpp).1 (hp p hpp).2)
+    (by
+      obtain ⟨p, hpp, hcp⟩ := hc
+      exact ⟨p, hpp, party_collide_err r N t dealers p hd (hp p hpp).2 hcp⟩)]
+  rfl
+
 /-- the whole run: succeeds and every word is the sum (mod `q`) of the parties' words. -/
 theorem run_spec (r : RingQP) (N t : ℕ) (dealers : List ShamirPoly) (parties : List Party)
     (hd : ∀ sp ∈ dealers, sp ≠ [] ∧ ∀ c ∈ sp, ShapedQP r N c)
-    (hp : ∀ p ∈ parties, t ≤ p.actives.length ∧ ∀ a ∈ p.actives.take t, a ≠ p.own → a ∈ p.others) :
+    (hp : ∀ p ∈ parties, t ≤ p.actives.length ∧ (∀ a ∈ p.actives.take t, a ≠ p.own → a ∈ p.others) ∧
+      ∀ a ∈ p.actives.take t, a ≠ p.own → pointsCollide r.ms p.own a = false) :
     ∃ out, thresholdRun r t (zeroQP r N) dealers parties = .ok out ∧ ShapedQP r N out ∧
       ∀ m k, m < r.ms.length → k < N →
         ent out.rows m k = sumMod (modAt r.ms m) 0 (parties.map fun p =>
@@ -117,7 +214,7 @@ theorem run_spec (r : RingQP) (N t : ℕ) (dealers : List ShamirPoly) (parties :
           sumMod (modAt r.ms m) 0 (dealers.map fun sp => horner (modAt r.ms m) p.own (sp.map fun c => ent c.rows m k))
             * lagProdScalar (modAt r.ms m) p.own (p.actives.take t) (1 % modAt r.ms m) % modAt r.ms m := by
     intro p hpp
-    obtain ⟨a, ha, hsh, he⟩ := party_spec r N t dealers p hd (hp p hpp).1 (hp p hpp).2
+    obtain ⟨a, ha, hsh, he⟩ := party_spec r N t dealers p hd (hp p hpp).1 (hp p hpp).2.1 (hp p hpp).2.2
     have : g p = a := by simp only [g, ha, outGet]
     rw [this]
     exact ⟨ha, hsh, he⟩
